@@ -814,6 +814,9 @@ class TreeGen:
             f = self.cvx(L, d - 1, s if pos else -s)
             k = self.kscalar(nz=True, positive=pos)
             u = r.random()
+            if self.inplace and r.random() < 0.06:
+                # f *= 0 on a piecewise-linear function (its length may be carried by the max/min terms alone)
+                return n_smul(K(r.choice(["float", "int", "d11"]), 0.0), self._fobj(f), inplace=True)
             if u < 0.15:
                 return n_div(f, k)
             if self.inplace and u < 0.3:
